@@ -988,8 +988,127 @@ func (g *G) inLoop() bool {
 	return false
 }
 
+// genLabelHeader: a labelled statement whose HEADER contains an inlined helper with a loop of its own
+// (inline.VarSum / SumVar) and whose body executes a labelled break and a labelled continue: the compiler must bind
+// the statement's label before it walks the header (generateLabel before ast.Walk in ForStmt / RangeStmt / SwitchStmt),
+// or the helper's loop takes the label. One template per statement kind and header position, plus a nested one.
+func (g *G) genLabelHeader() (E, bool) {
+	v := g.pickVar(KInt, true)
+	if v == nil {
+		return E{}, false
+	}
+	v.Used = true
+	g.nctx++
+	g.nlbl++
+	id := g.nlbl
+	L := fmt.Sprintf("LH%d", id)
+	i, j := fmt.Sprintf("lh%di", id), fmt.Sprintf("lh%dj", id)
+	// at least three iterations, so that both the labelled continue (iterations with i%3 < 2) and the labelled break
+	// (the iteration i == m, m%3 == 2) are executed
+	a, b, c := 1+g.r.Intn(3), 1+g.r.Intn(3), 1+g.r.Intn(3)
+	m := 2
+	if a+b+c >= 6 && g.r.Bool() {
+		m = 5
+	}
+	helper := func(x string, ys ...int) (string, string) { // plain, checked
+		ps, cs := x, x
+		if len(ys) == 1 && g.r.Bool() {
+			return fmt.Sprintf("inline.SumVar(%s, %d)", x, ys[0]), fmt.Sprintf("ck_add(%s, %d)", x, ys[0])
+		}
+		ps = "inline.VarSum(" + x
+		for _, y := range ys {
+			ps += fmt.Sprintf(", %d", y)
+			cs = fmt.Sprintf("ck_add(%s, %d)", cs, y)
+		}
+		return ps + ")", cs
+	}
+	acc := func(s *sb, n int) {
+		s.pc(fmt.Sprintf("%s += %d\n", v.Name, n), fmt.Sprintf("%s = ck_add(%s, %d)\n", v.Name, v.Name, n))
+	}
+	// the body shared by the loop templates: continue L from a nested for, break L from a nested switch
+	body := func(s *sb) {
+		s.pc("", "ck_step()\n")
+		s.both("for %s := 0; %s < 2; %s++ {\n", j, j, j)
+		s.pc("", "ck_step()\n")
+		s.both("if %s == %s%%3 {\ncontinue %s\n}\n", j, i, L)
+		acc(s, 10)
+		s.both("}\n")
+		s.both("switch {\ncase %s == %d:\nbreak %s\ndefault:\n", i, m, L)
+		acc(s, 1)
+		s.both("}\n")
+		acc(s, 1000)
+		s.both("}\n")
+	}
+	var s sb
+	kind := g.r.Intn(7)
+	names := []string{"range", "for-init", "for-cond", "for-post", "switch-tag", "switch-init", "nested"}
+	g.f("stmt:label-header-" + names[kind])
+	hp, hc := helper(fmt.Sprint(a), b, c)
+	switch kind {
+	case 0:
+		s.pc(fmt.Sprintf("%s:\nfor %s := range %s {\n", L, i, hp), fmt.Sprintf("%s:\nfor %s := range %s {\n", L, i, hc))
+		body(&s)
+	case 1:
+		s.pc(fmt.Sprintf("%s:\nfor %s := %s; %s > 0; %s-- {\n", L, i, hp, i, i), fmt.Sprintf("%s:\nfor %s := %s; %s > 0; %s-- {\n", L, i, hc, i, i))
+		body(&s)
+	case 2:
+		s.pc(fmt.Sprintf("%s:\nfor %s := 0; %s < %s; %s++ {\n", L, i, i, hp, i), fmt.Sprintf("%s:\nfor %s := 0; %s < %s; %s++ {\n", L, i, i, hc, i))
+		body(&s)
+	case 3:
+		sp, sc := helper("1", 0, 1) // a step of 2: i = 0 (continue), 2 (break or not), 4, 6, 8 …
+		m = 2 + 6*g.r.Intn(2)
+		s.pc(fmt.Sprintf("%s:\nfor %s := 0; %s < 11; %s += %s {\n", L, i, i, i, sp), fmt.Sprintf("%s:\nfor %s := 0; %s < 11; %s = ck_add(%s, %s) {\n", L, i, i, i, i, sc))
+		body(&s)
+	case 4, 5:
+		// a labelled switch inside a labelled loop: break L leaves the switch, continue LO the loop
+		LO := L + "o"
+		tp, tc := helper(i, b, c)
+		s.both("%s:\nfor %s := 0; %s < 4; %s++ {\n", LO, i, i, i)
+		s.pc("", "ck_step()\n")
+		if kind == 4 {
+			s.pc(fmt.Sprintf("%s:\nswitch %s {\n", L, tp), fmt.Sprintf("%s:\nswitch %s {\n", L, tc))
+		} else {
+			s.pc(fmt.Sprintf("%s:\nswitch %s := %s; %s {\n", L, j, tp, j), fmt.Sprintf("%s:\nswitch %s := %s; %s {\n", L, j, tc, j))
+		}
+		s.both("case %d:\nif %s == %d {\nbreak %s\n}\n", b+c+1, i, 1, L)
+		acc(&s, 10)
+		s.both("case %d:\n", b+c+2)
+		acc(&s, 5)
+		s.both("continue %s\ndefault:\nif %s == 3 {\nbreak %s\n}\n", LO, i, LO)
+		acc(&s, 100)
+		s.both("}\n")
+		acc(&s, 1000)
+		s.both("}\n")
+	default:
+		// a labelled range (helper in the range expression) inside a labelled for (helper in the condition)
+		LO := L + "o"
+		k := fmt.Sprintf("lh%dk", id)
+		op, oc := helper(fmt.Sprint(a), 1, 1)
+		ip, ic := helper(k, 0, 1)
+		s.pc(fmt.Sprintf("%s:\nfor %s := 0; %s < %s; %s++ {\n", LO, k, k, op, k), fmt.Sprintf("%s:\nfor %s := 0; %s < %s; %s++ {\n", LO, k, k, oc, k))
+		s.pc("", "ck_step()\n")
+		s.pc(fmt.Sprintf("%s:\nfor %s := range %s {\n", L, i, ip), fmt.Sprintf("%s:\nfor %s := range %s {\n", L, i, ic))
+		s.pc("", "ck_step()\n")
+		s.both("if %s == 1 && %s%%2 == 1 {\ncontinue %s\n}\nif %s == 2 {\nbreak %s\n}\n", i, k, LO, i, L)
+		s.both("for %s := 0; %s < 2; %s++ {\n", j, j, j)
+		s.pc("", "ck_step()\n")
+		s.both("if %s == 1 {\ncontinue %s\n}\n", j, L)
+		acc(&s, 1)
+		s.both("}\n}\n")
+		s.both("if %s == %d {\nbreak %s\n}\n", k, 3+g.r.Intn(2), LO)
+		acc(&s, 1000)
+		s.both("}\n")
+	}
+	return s.E(), true
+}
+
 func (g *G) genStmt() E {
 	g.budget--
+	if g.useInline && !g.safe && !g.noCalls && !g.inMapRange() && g.depth < 4 && g.r.Chance(1, 10) {
+		if e, ok := g.genLabelHeader(); ok {
+			return e
+		}
+	}
 	var s sb
 	w := []int{14, 9, 7, 9, 8, 5, 4, 5, 9, 3, 3, 3, 4, 3, 3, 3, 3}
 	if g.depth >= 3 {
